@@ -132,10 +132,30 @@ def run_property(prop: str, tier: str, seed: int, only: str = None, jobs: int = 
             violations.append(ob)
     out_lines = []
     real_violations = []
+    MAX_LINES = int(os.environ.get("VERIF_MAX_VIOLATION_LINES", "8"))
+    # replay budget: at most MAX_REPLAYS counterexamples are replayed natively, spread round-robin over distinct
+    # clause families (function/clause), so a change that breaks hundreds of structure instances is reported quickly
+    MAX_REPLAYS = int(os.environ.get("VERIF_MAX_REPLAYS", "8"))
+
+    def _fam(o):
+        return "/".join(o["id"].split("/")[:3]).split("[")[0].split("#")[0]
+    order, per_fam = [], {}
+    for o in violations:
+        per_fam.setdefault(_fam(o), []).append(o)
+    while any(per_fam.values()):
+        for f in list(per_fam):
+            if per_fam[f]:
+                order.append(per_fam[f].pop(0))
+    violations = order
     for ob in violations:
         cex = ob.get("cex")
         rep = None
-        if cex is not None and hasattr(mod, "replay"):
+        cex_skip = False
+        if n_replayed >= MAX_REPLAYS and cex is not None:
+            rep = {"reproduced": False, "note": f"replay budget ({MAX_REPLAYS}) used up by earlier violations of this run; "
+                                               f"run ./check {prop} --replay <this file> to replay this one"}
+            cex_skip = True
+        if cex is not None and hasattr(mod, "replay") and not cex_skip:
             r = pool.run_tasks([("replay", _replay_child, (modname, prop, cex), 300.0)], jobs=1)[0]
             if r[1] == "ok":
                 rep = r[2]
@@ -159,9 +179,12 @@ def run_property(prop: str, tier: str, seed: int, only: str = None, jobs: int = 
             continue
         real_violations.append(ob)
         suffix = "" if reproduced else " no-failing-input-found"
-        out_lines.append(f"VIOLATION property={prop} replay={path}{suffix}")
-        out_lines.append(f"  obligation={ob['id']} engine={ob.get('engine')} backend={ob.get('backend')}"
-                         f" :: {str(ob.get('reason') or '')[:300]}")
+        if len(real_violations) <= MAX_LINES:
+            out_lines.append(f"VIOLATION property={prop} replay={path}{suffix}")
+            out_lines.append(f"  obligation={ob['id']} engine={ob.get('engine')} backend={ob.get('backend')}"
+                             f" :: {str(ob.get('reason') or '')[:300]}")
+    if len(real_violations) > MAX_LINES:
+        out_lines.append(f"  ... and {len(real_violations) - MAX_LINES} more violated obligations (all listed in evidence/{prop}.json and under replays/{prop}/)")
     seen_known = set()
     for ob, e in knowns:
         key = e.get("what")
